@@ -203,6 +203,9 @@ def main() -> int:
         meta = fn.__vf__
         b = meta["budget"]
         budget = (b[tier] if isinstance(b, dict) else b) * a.budget_scale
+        if tier == "thorough":
+            # together with the wall-time cap below this bounds a thorough check to roughly 20 minutes
+            budget = min(budget, float(os.environ.get("VERIF_JOB_BUDGET_CAP", "0") or 0) or 420.0)
         for part in partitions(fn):
             specs.append(
                 {
@@ -219,7 +222,7 @@ def main() -> int:
     # A ceiling on the wall time of the symbolic stage: jobs that have not been started by then are reported as
     # inconclusive ("not started"), never as confirmed.  It is not reached by the quick tier; it keeps the thorough
     # tier of the widest harnesses (hundreds of partitions) within a known time.
-    wall_cap = float(os.environ.get("VERIF_WALL_CAP", "0") or 0) or (1800.0 if tier == "quick" else 900.0)
+    wall_cap = float(os.environ.get("VERIF_WALL_CAP", "0") or 0) or (1800.0 if tier == "quick" else 600.0)
     t_sym = time.time()
 
     def run_capped(spec, timeout):
